@@ -11,8 +11,11 @@
 EXTENDS Integers, Sequences, TLC, Json, IOUtils
 
 Trace == ndJsonDeserialize(IOEnv.TRACE_FILE)
-VARIABLES l, open, n
-vars == <<l, open, n>>
+VARIABLES l, open, n, lenient
+vars == <<l, open, n, lenient>>
+\* lenient: some callers of this run give up (their context expires) while they queue or while the device answers.  The
+\* library then leaves the abandoned call's reply on the in-order transport for the next caller (recorded observation
+\* E03-F1, outside C14's quantification), so WHOSE reply a caller reads is not judged in such a run; everything else is.
 
 \* An exchange is open from the arrival of its write at the transport until the transport operation
 \* that ends it is done (the read that delivers the reply, or a failed write).  Both events are
@@ -21,32 +24,37 @@ Judge(e) ==
     CASE e.ev \in {"reset", "sched", "end"} -> "ok"
       [] e.ev = "arrive" ->
             IF e.op = "write" THEN
-                 (IF open # 0 /\ open # e.p THEN "request-written-while-another-callers-exchange-is-open" ELSE "ok")
+                 \* (lenient runs: a caller that gave up has left its exchange unfinished without the transport noticing; that
+                 \* another caller's exchange was still in progress shows when THAT caller touches the transport again)
+                 (IF open # 0 /\ open # e.p /\ ~lenient THEN "request-written-while-another-callers-exchange-is-open" ELSE "ok")
             ELSE IF e.op = "read" THEN
                  (IF open # e.p THEN "transport-read-outside-the-callers-own-exchange" ELSE "ok")
             ELSE \* close / dial
                  (IF open # 0 THEN "connection-closed-or-replaced-while-an-exchange-is-open" ELSE "ok")
       [] e.ev = "done" ->
-            IF e.op = "read" /\ e.err = 0 /\ e.owner # e.p THEN "caller-read-another-callers-reply" ELSE "ok"
+            IF e.op = "read" /\ e.err = 0 /\ e.owner # e.p /\ ~lenient THEN "caller-read-another-callers-reply" ELSE "ok"
       [] e.ev = "return" ->
             IF e.kind = "panic" THEN "panic"
-            ELSE IF e.p <= n /\ e.kind = "ok" /\ e.unit # e.p THEN "caller-received-another-callers-reply"
+            ELSE IF e.p <= n /\ e.kind = "ok" /\ e.unit # e.p /\ ~lenient THEN "caller-received-another-callers-reply"
             ELSE "ok"
       [] e.ev = "missing" -> "expected-transport-step-did-not-occur"
       [] e.ev = "stuck"   -> "goroutines-did-not-finish"
       [] e.ev = "race"    -> "data-race-reported-by-the-race-detector"
+      [] e.ev = "crash"   -> "process-terminated-by-a-fatal-runtime-error"
       [] OTHER -> "unknown-event"
 
-Init == l = 1 /\ open = 0 /\ n = 0
+Init == l = 1 /\ open = 0 /\ n = 0 /\ lenient = FALSE
 Next ==
     /\ l <= Len(Trace)
     /\ LET e == Trace[l] v == Judge(e) IN
        /\ IF v = "ok" THEN TRUE ELSE PrintT(<<"VERDICT", l, v>>)
-       /\ CASE e.ev = "reset" -> open' = 0 /\ n' = e.n
-            [] e.ev = "arrive" /\ e.op = "write" -> open' = e.p /\ UNCHANGED n
+       /\ CASE e.ev = "reset" -> open' = 0 /\ n' = e.n /\ lenient' = e.ctx
+            \* (a caller that has returned has no exchange open any more, whatever it left unread)
+            [] e.ev = "return" /\ e.p = open -> open' = 0 /\ UNCHANGED <<n, lenient>>
+            [] e.ev = "arrive" /\ e.op = "write" -> open' = e.p /\ UNCHANGED <<n, lenient>>
             \* (a read that delivers a fragment with more of the same reply to come leaves the exchange open)
-            [] e.ev = "done" /\ e.p = open /\ ((e.op = "read" /\ e.more = 0) \/ (e.op = "write" /\ e.err = 1)) -> open' = 0 /\ UNCHANGED n
-            [] OTHER -> UNCHANGED <<open, n>>
+            [] e.ev = "done" /\ e.p = open /\ ((e.op = "read" /\ e.more = 0) \/ (e.op = "write" /\ e.err = 1)) -> open' = 0 /\ UNCHANGED <<n, lenient>>
+            [] OTHER -> UNCHANGED <<open, n, lenient>>
     /\ l' = l + 1
 Spec == Init /\ [][Next]_vars
 AllConsumed == TLCGet("stats").diameter - 1 = Len(Trace)
